@@ -208,10 +208,69 @@ theorem c07_reported_count (n : Nat) (bs? nb? : Option Nat) (c : Cfg) (l : List 
       rw [this.2.2.2.1, this.1]
     | some s => simp at hboth
 
+/-- **re-sow** (batch size, batch count and remainder remembered from an earlier sow): whenever
+`choose_batch_settings` accepts the new number of settings, the Sower again writes exactly `num_batches` files — every
+batch file of the earlier sow is overwritten, none is left over, and the reported count stays true. -/
+theorem c07_resow_count (n bs nb rem : Nat) (c : Cfg) (l : List α)
+    (h : chooseBatch n (some bs) (some nb) (some rem) = .ok c) (hl : l.length = n) (hbs : 1 ≤ bs)
+    (hrem : rem ≤ nb) :
+    c = ⟨bs, nb, rem⟩ ∧ (sow c l).length = nb := by
+  simp only [chooseBatch, Option.getD_some] at h
+  cases hok : Gen.bothOk (n : Int) (bs : Int) ((bs : Int) * (nb : Int) + ((rem : Nat) : Int)) with
+  | false => simp [hok] at h
+  | true =>
+    simp only [hok, if_true, Except.ok.injEq] at h
+    simp only [Gen.bothOk, Gen.Default.bothOk, Bool.and_eq_true, decide_eq_true_eq] at hok
+    subst h
+    refine ⟨rfl, ?_⟩
+    obtain ⟨hle, hlt⟩ := hok
+    have hle' : n ≤ bs * nb + rem := by exact_mod_cast hle
+    have hlt' : bs * nb + rem < n + bs := by exact_mod_cast hlt
+    obtain ⟨out, cur, hsow, hsz, hcur, hlen⟩ := sow_shape ⟨bs, nb, rem⟩ hbs l
+    rw [sumSizes_eq] at hlen
+    simp only [sizeOf, Gen.sowerGetsExtra, Gen.Default.sowerGetsExtra, decide_eq_true_eq, Int.ofNat_lt] at hcur
+    simp only at hlen hcur
+    rw [hl] at hlen
+    rw [hsow]
+    clear hsz hsow
+    generalize hm : out.length = m at *
+    by_cases hc : cur = []
+    · subst hc
+      simp only [List.isEmpty_nil, if_true, List.length_nil, Nat.add_zero] at hlen ⊢
+      rw [hm]
+      rcases Nat.lt_trichotomy m nb with hlt2 | heq | hgt
+      · exfalso
+        have h1 : (m + 1) * bs ≤ nb * bs := Nat.mul_le_mul_right _ hlt2
+        rw [Nat.succ_mul] at h1
+        rw [Nat.mul_comm bs nb] at hle' hlt'
+        omega
+      · exact heq
+      · exfalso
+        have h1 : (nb + 1) * bs ≤ m * bs := Nat.mul_le_mul_right _ hgt
+        rw [Nat.succ_mul] at h1
+        rw [Nat.mul_comm bs nb] at hle' hlt'
+        omega
+    · have hpos : 0 < cur.length := List.length_pos_iff.mpr hc
+      have : cur.isEmpty = false := by simp [hc]
+      simp only [this, Bool.false_eq_true, if_false, List.length_append, List.length_cons, List.length_nil, hm]
+      rcases Nat.lt_trichotomy (m + 1) nb with hlt2 | heq | hgt
+      · exfalso
+        have h1 : (m + 2) * bs ≤ nb * bs := Nat.mul_le_mul_right _ hlt2
+        rw [Nat.succ_mul, Nat.succ_mul] at h1
+        rw [Nat.mul_comm bs nb] at hle' hlt'
+        split at hcur <;> omega
+      · omega
+      · exfalso
+        have h1 : nb * bs ≤ m * bs := Nat.mul_le_mul_right _ (by omega)
+        rw [Nat.mul_comm bs nb] at hle' hlt'
+        omega
+
 /-! Non-vacuity: concrete instances meeting the hypotheses. -/
 example : chooseBatch 7 none (some 3) none = .ok ⟨2, 3, 1⟩ := by decide
 example : sow ⟨2, 3, 1⟩ [0, 1, 2, 3, 4, 5, 6] = [[0, 1, 2], [3, 4], [5, 6]] := by decide
 example : chooseBatch 7 (some 3) none none = .ok ⟨3, 3, 0⟩ := by decide
 example : sow ⟨3, 3, 0⟩ [0, 1, 2, 3, 4, 5, 6] = [[0, 1, 2], [3, 4, 5], [6]] := by decide
+example : chooseBatch 6 (some 2) (some 3) (some 1) = .ok ⟨2, 3, 1⟩ := by decide
+example : sow ⟨2, 3, 1⟩ [0, 1, 2, 3, 4, 5] = [[0, 1, 2], [3, 4], [5]] := by decide
 
 end Batch
